@@ -180,6 +180,7 @@ def shards(tier, seed):
     cl = x86space.cells()
     out += [('back', i, 8) for i in range(0, len(cl), 8)]
     out += [('backp', i, 64) for i in range(0, len(cl), 64)]
+    out += [('backgrid', 0, 0)]
     return out
 
 
@@ -190,7 +191,9 @@ def run_shard(shard, tier, seed):
         return sh
     cl = x86space.cells()[shard[1]:shard[1] + shard[2]]
     items = []
-    if shard[0] == 'back':
+    if shard[0] == 'backgrid':
+        items = list(x86space.sib_grid(tier)) + list(x86space.disp_grid(tier))
+    elif shard[0] == 'back':
         for cell in cl:
             for b, cls in x86space.strings_for_cell(cell, tier, seed, prefixes=x86space.STD_PREFIXES, sibs=x86space.SIB_QUICK[:3] if tier == 'quick' else x86space.SIB_QUICK + x86space.SIB_ALL64[::4],
                                                     nfill=0 if tier == 'quick' else 2):
